@@ -97,7 +97,12 @@ fn drive_threads<P: ParallelIterator>(
                                     }
                                 };
                                 let Some((i, b)) = claimed else { break };
-                                shared.0.process(i, b, &mut |x| out.push((seq.fetch_add(1, Ordering::SeqCst), i, x)));
+                                // code of the system under simulation: allocation points may preempt here
+                                let _active = simhook::baton::Active::new();
+                                shared.0.process(i, b, &mut |x| {
+                                    let _s = simhook::baton::Suspend::new();
+                                    out.push((seq.fetch_add(1, Ordering::SeqCst), i, x))
+                                });
                             }
                             out
                         }));
